@@ -47,11 +47,10 @@ theorem tableClean_of_effectsClean (effects : List (String × List Edit))
   · simp [he]
   · obtain ⟨e, hin, hbad⟩ := hrep m hm he
     simp only [effectsClean, List.all_eq_true] at h
-    have := h e hin
-    simp only [List.all_eq_true] at this
-    rw [List.all_eq_false] at hbad
-    obtain ⟨ed, hed, hs⟩ := hbad
-    exact absurd (this ed hed) hs
+    have h2 := h e hin
+    have h3 : (e.2.all fun ed => ed.safe) = true := List.all_eq_true.mpr h2
+    rw [hbad] at h3
+    exact absurd h3 (by decide)
 
 /-! ### impurity witnesses (what the pinned tree did) -/
 
